@@ -208,8 +208,20 @@ func corpus(r *rand.Rand) map[string][][]byte {
 		add(l.any(3))
 	}
 	mp := geom.NewMultiPoint([]geom.Point{geom.XY{X: 1, Y: 2}.AsPoint(), geom.XY{X: 3, Y: 4}.AsPoint()}).AsGeometry()
-	if b, err := geom.MarshalTWKB(mp, 0, geom.TWKBIDList([]int64{5, -7})); err == nil {
-		out["twkb"] = append(out["twkb"], b)
+	// TWKB with the optional headers (id list, size, bounding box) on collection types: first in the corpus, so that the
+	// structured sweeps (every truncation, every count / varint overwrite at every position) always include them
+	gcIDs := geom.NewGeometryCollection([]geom.Geometry{mp, geom.XY{X: 5, Y: 6}.AsPoint().AsGeometry()}).AsGeometry()
+	for _, e := range []struct {
+		g    geom.Geometry
+		opts []geom.TWKBWriterOption
+	}{
+		{mp, []geom.TWKBWriterOption{geom.TWKBIDList([]int64{5, -7})}},
+		{mp, []geom.TWKBWriterOption{geom.TWKBIDList([]int64{5, -7}), geom.TWKBSizeHeader(), geom.TWKBBoundingBoxHeader()}},
+		{gcIDs, []geom.TWKBWriterOption{geom.TWKBIDList([]int64{1, 2})}},
+	} {
+		if b, err := geom.MarshalTWKB(e.g, 0, e.opts...); err == nil {
+			out["twkb"] = append([][]byte{b}, out["twkb"]...)
+		}
 	}
 	f := geom.GeoJSONFeature{Geometry: mp, ID: 5, Properties: map[string]interface{}{"a": 1}}
 	fb, _ := json.Marshal(f)
@@ -314,7 +326,7 @@ func decodeGen(r *rand.Rand, n int, tier string, emit func(Case)) {
 	// structured sweeps over small corpus entries: every truncation, every count position
 	for _, f := range fmts {
 		for ci, src := range corp[f] {
-			if ci%4 != 0 || len(src) > 120 {
+			if (ci%4 != 0 && !(f == "twkb" && ci < 3)) || len(src) > 120 {
 				continue
 			}
 			for o := 0; o < len(src) && i < n/3; o++ {
